@@ -21,7 +21,7 @@ import numpy as np
 import torch
 from hypothesis import strategies as st
 
-from ..harness import Leg, Violation, check, impl
+from ..harness import Leg, Violation, impl
 from ..models import lifecycle as M
 
 DT = 1.0
@@ -179,9 +179,35 @@ class Ctx:
 
     def info(self, **kw):
         w = self.world
-        d = {"shadowed": w.shadowed(), "alias_del": w.flags["alias_del"], "op": self.what.split(" ")[1] if " " in self.what else self.what}
+        d = {"shadowed": w.shadowed(),
+             "op": self.what.split(" ")[1] if " " in self.what else self.what}
         d.update(kw)
         return d
+
+
+def check(cond, kind, detail="", info=None):
+    """harness.check with the (costly) model labels computed only on failure."""
+    if cond:
+        return
+    if callable(detail):
+        detail = detail()
+    if isinstance(info, tuple):
+        info = info[0].info(**info[1])
+    elif isinstance(info, Ctx):
+        info = info.info()
+    raise Violation(kind, detail, info)
+
+
+_FROZEN = []
+
+
+def _freeze_heap():
+    # gc.collect() is part of the operation alphabet; freezing the (large, static) import-time heap once
+    # keeps each explicit collection cheap without changing what it collects afterwards
+    if not _FROZEN:
+        gc.collect()
+        gc.freeze()
+        _FROZEN.append(True)
 
 
 def _compare(ctx: Ctx):
@@ -189,11 +215,11 @@ def _compare(ctx: Ctx):
     layer = im.layer
     with impl(f"layer.training after {what}"):
         lt = layer.training
-    check(lt == w.layer_training, "mode:layer", lambda: f"{what}: layer.training {lt}", ctx.info())
+    check(lt == w.layer_training, "mode:layer", lambda: f"{what}: layer.training {lt}", ctx)
     attached_total = 0
     for idx, tm in w.trainers.items():
         tr = im.trainers[idx]
-        check(tr.training == tm.training, "mode:trainer", lambda: f"{what}: trainer{idx}.training {tr.training}", ctx.info())
+        check(tr.training == tm.training, "mode:trainer", lambda: f"{what}: trainer{idx}.training {tr.training}", ctx)
 
         # ---- cells
         with impl(f"trainer{idx}.named_cells/cells after {what}"):
@@ -201,12 +227,12 @@ def _compare(ctx: Ctx):
             cells = [c for (c, _s) in tr.cells]
         want_names = sorted(tm.cells)
         check(sorted(n for n, _ in ncells) == want_names, "listing:cells",
-              lambda: f"{what}: trainer{idx} named_cells {sorted(n for n, _ in ncells)} != registered {want_names}", ctx.info())
+              lambda: f"{what}: trainer{idx} named_cells {sorted(n for n, _ in ncells)} != registered {want_names}", ctx)
         for n, c in ncells:
             check(c is im.cell(tm.cells[n].cellkey), "listing:cells",
-                  lambda: f"{what}: trainer{idx} named_cells[{n}] is not the layer's cell {tm.cells[n].cellkey}", ctx.info())
+                  lambda: f"{what}: trainer{idx} named_cells[{n}] is not the layer's cell {tm.cells[n].cellkey}", ctx)
         check(sorted(id(c) for c in cells) == sorted(id(c) for _, c in ncells), "listing:cells",
-              lambda: f"{what}: trainer{idx}.cells disagrees with named_cells", ctx.info())
+              lambda: f"{what}: trainer{idx}.cells disagrees with named_cells", ctx)
 
         # ---- pool entries and identity partition
         uid2obj, obj2uid = {}, {}
@@ -215,31 +241,31 @@ def _compare(ctx: Ctx):
             with impl(f"trainer{idx}.named_monitors_of({cname}) after {what}"):
                 of = dict(tr.named_monitors_of(cname))
             check(sorted(of) == sorted(e.mons), "listing:monitors_of",
-                  lambda: f"{what}: trainer{idx}.named_monitors_of({cname}) = {sorted(of)} != registered {sorted(e.mons)}", ctx.info())
+                  lambda: f"{what}: trainer{idx}.named_monitors_of({cname}) = {sorted(of)} != registered {sorted(e.mons)}", ctx)
             for mname, mm in e.mons.items():
                 with impl(f"trainer{idx}.get_monitor({cname},{mname}) after {what}"):
                     obj = tr.get_monitor(cname, mname)
                 check(obj is not None and obj is of[mname], "listing:get_monitor",
-                      lambda: f"{what}: trainer{idx}.get_monitor({cname},{mname}) -> {type(obj).__name__}, not the listed object", ctx.info())
+                      lambda: f"{what}: trainer{idx}.get_monitor({cname},{mname}) -> {type(obj).__name__}, not the listed object", ctx)
                 want_named.add(((cname, mname), id(obj)))
                 if mm.uid in uid2obj:
                     check(uid2obj[mm.uid] is obj, "pool:alias",
                           lambda: f"{what}: trainer{idx} {cname}.{mname} should be the object shared with "
-                                  f"{tm.holders(mm)} (same name, attribute and tags) but is a different object", ctx.info())
+                                  f"{tm.holders(mm)} (same name, attribute and tags) but is a different object", ctx)
                 else:
                     check(id(obj) not in obj2uid, "pool:alias",
                           lambda: f"{what}: trainer{idx} {cname}.{mname} aliases an object of a request with a "
-                                  f"different name/attribute/tags", ctx.info())
+                                  f"different name/attribute/tags", ctx)
                     uid2obj[mm.uid] = obj
                     obj2uid[id(obj)] = mm.uid
         with impl(f"trainer{idx}.monitors / named_monitors after {what}"):
             mons = list(tr.monitors)
             named = [((c, n), m) for (c, n), m in tr.named_monitors]
         check(len(mons) == len({id(m) for m in mons}) and {id(m) for m in mons} == set(obj2uid), "listing:monitors",
-              lambda: f"{what}: trainer{idx}.monitors lists {len(mons)} objects, registered distinct objects {len(obj2uid)}", ctx.info())
+              lambda: f"{what}: trainer{idx}.monitors lists {len(mons)} objects, registered distinct objects {len(obj2uid)}", ctx)
         check(len(named) == len(want_named) and {(k, id(m)) for k, m in named} == want_named, "listing:named_monitors",
               lambda: f"{what}: trainer{idx}.named_monitors {sorted(k for k, _ in named)} != registered "
-                      f"{sorted(k for k, _ in want_named)}", ctx.info())
+                      f"{sorted(k for k, _ in want_named)}", ctx)
 
         # ---- attachment + contents of every object
         for mm in tm.objects():
@@ -250,7 +276,7 @@ def _compare(ctx: Ctx):
                 reg = obj.registered
             check(reg == mm.attached, "monitor:attached",
                   lambda: f"{what}: trainer{idx} monitor {tm.holders(mm)} registered={reg}, expected {mm.attached} "
-                          f"(trainer.training={tm.training})", ctx.info(mkind=mm.kind))
+                          f"(trainer.training={tm.training})", (ctx, {"mkind": mm.kind}))
             attached_total += 1 if mm.attached else 0
             with impl(f"monitor.dump/peek after {what}"):
                 d = obj.dump()
@@ -258,29 +284,30 @@ def _compare(ctx: Ctx):
             want = mm.dump()
             if want is None:
                 check(d is None and p is None, "monitor:value",
-                      lambda: f"{what}: trainer{idx} monitor {tm.holders(mm)} holds data but should be empty", ctx.info(mkind=mm.kind))
+                      lambda: f"{what}: trainer{idx} monitor {tm.holders(mm)} holds data but should be empty", (ctx, {"mkind": mm.kind}))
                 continue
             check(d is not None and p is not None, "monitor:value",
                   lambda: f"{what}: trainer{idx} monitor {tm.holders(mm)} ({mm.kind}) is empty, expected "
-                          f"{mm.nobs_total} observations so far", ctx.info(mkind=mm.kind))
+                          f"{mm.nobs_total} observations so far", (ctx, {"mkind": mm.kind}))
             g = _np(d)
             check(_close(g, want), "monitor:value",
                   lambda: f"{what}: trainer{idx} monitor {tm.holders(mm)} ({mm.kind}, cap {mm.cap}) dump (newest first)\n"
-                          f" got  {np.round(g, 5).tolist()}\n want {np.round(want, 5).tolist()}", ctx.info(mkind=mm.kind))
+                          f" got  {np.round(g, 5).tolist()}\n want {np.round(want, 5).tolist()}", (ctx, {"mkind": mm.kind}))
             check(_close(_np(p), want[0]), "monitor:peek",
-                  lambda: f"{what}: trainer{idx} monitor {tm.holders(mm)} peek != newest dumped", ctx.info(mkind=mm.kind))
+                  lambda: f"{what}: trainer{idx} monitor {tm.holders(mm)} peek != newest dumped", (ctx, {"mkind": mm.kind}))
         del uid2obj, mons, named
 
-    # ---- hook handles on the layer: exactly one per attached live monitor
-    nh = len(layer._forward_hooks) + len(layer._forward_pre_hooks)
-    held_live = 0
+    # ---- a monitor the user still holds after it was deleted from the pool must be detached
+    live = {m.uid for m in w.all_objects()}
     for key, obj in im.held.items():
-        # a monitor the user still holds after it left the pool keeps whatever state it had
-        uid = key[3]
-        if not any(m.uid == uid for m in w.all_objects()) and obj.registered:
-            held_live += 1
-    check(nh == attached_total + held_live, "hooks:count",
-          lambda: f"{what}: layer has {nh} forward hook handles, {attached_total} monitors should be attached", ctx.info())
+        if key[3] not in live:
+            check(not obj.registered, "monitor:dangling",
+                  lambda: f"{what}: monitor {key[:3]} was deleted from the pool but is still registered on the layer", ctx)
+
+    # ---- hook handles on the layer: exactly one per attached monitor of a live trainer
+    nh = len(layer._forward_hooks) + len(layer._forward_pre_hooks)
+    check(nh == attached_total, "hooks:count",
+          lambda: f"{what}: layer has {nh} forward hook handles, {attached_total} monitors should be attached", ctx)
 
 
 def _check_collected(ctx: Ctx):
@@ -292,7 +319,7 @@ def _check_collected(ctx: Ctx):
         if uid in live or uid in held:
             continue
         check(ref() is None, "gc:leak", lambda: f"{ctx.what}: monitor object #{uid} left the pool, is not referenced by the user, "
-                                                f"but is still alive after gc.collect()", ctx.info())
+                                                f"but is still alive after gc.collect()", ctx)
         del im.refs[uid]
         ctx.stats["gc_checked"] += 1
 
@@ -354,8 +381,6 @@ def _apply(ctx: Ctx, op):
         tm = w.trainers[idx]
         key = cells[op[2] % len(cells)]
         hp = op[3] % len(M.HP)
-        if tm.ttype == "MSTDPET" and not case["allow_mixed_trace"]:
-            hp = 0 if hp == 2 else hp  # see known finding: MSTDPET pools traces of different trace modes
         if _cname(key) in tm.cells:
             # documented rejection: a cell with the specified name already exists
             try:
@@ -363,8 +388,8 @@ def _apply(ctx: Ctx, op):
             except ValueError:
                 return
             except Exception as e:  # noqa: BLE001
-                raise Violation("reject:wrongexc", f"{ctx.what}: {type(e).__name__}: {e}", ctx.info()) from e
-            raise Violation("reject:accepted", f"{ctx.what}: duplicate cell name accepted", ctx.info())
+                raise Violation("reject:wrongexc", f"{ctx.what}: {type(e).__name__}: {e}", ctx) from e
+            raise Violation("reject:accepted", f"{ctx.what}: duplicate cell name accepted", ctx)
         names = {s["name"] for s in M.trainer_monitors(tm.ttype, hp, DT, key[0], key[1])}
         if not case["allow_shadow"] and _would_shadow(ctx, idx, key, names):
             st_["shadow_skipped"] += 1
@@ -380,8 +405,8 @@ def _apply(ctx: Ctx, op):
                 except AttributeError:
                     return
                 except Exception as e:  # noqa: BLE001
-                    raise Violation("reject:wrongexc", f"{ctx.what}: {type(e).__name__}: {e}", ctx.info()) from e
-                raise Violation("reject:accepted", f"{ctx.what}: del_cell of unknown cell accepted", ctx.info())
+                    raise Violation("reject:wrongexc", f"{ctx.what}: {type(e).__name__}: {e}", ctx) from e
+                raise Violation("reject:accepted", f"{ctx.what}: del_cell of unknown cell accepted", ctx)
             return
         tm = w.trainers[idx]
         cname = sorted(tm.cells)[op[2] % len(tm.cells)]
@@ -423,7 +448,7 @@ def _apply(ctx: Ctx, op):
                                  {"k": k, "g": g, "attr": attr})
         with impl(ctx.what):
             got = im.trainers[idx].get_monitor(cname, pname)
-        check(obj is got, "listing:get_monitor", lambda: f"{ctx.what}: add_monitor returned an object that is not get_monitor()", ctx.info())
+        check(obj is got, "listing:get_monitor", lambda: f"{ctx.what}: add_monitor returned an object that is not get_monitor()", ctx)
         if hold:
             im.held[(idx, cname, pname, mon.uid)] = obj
         del obj, got
@@ -441,8 +466,8 @@ def _apply(ctx: Ctx, op):
                 except AttributeError:
                     return
                 except Exception as e:  # noqa: BLE001
-                    raise Violation("reject:wrongexc", f"{ctx.what}: {type(e).__name__}: {e}", ctx.info()) from e
-                raise Violation("reject:accepted", f"{ctx.what}: del_monitor of unknown monitor accepted", ctx.info())
+                    raise Violation("reject:wrongexc", f"{ctx.what}: {type(e).__name__}: {e}", ctx) from e
+                raise Violation("reject:accepted", f"{ctx.what}: del_monitor of unknown monitor accepted", ctx)
             return
         cname, pname = probes[op[2] % len(probes)]
         before = w.flags["alias_del"]
@@ -462,7 +487,7 @@ def _apply(ctx: Ctx, op):
             st_["mode_switch"] += 1
         with impl(ctx.what):
             r = im.trainers[idx].train(mode) if (mode or op[3] % 2) else im.trainers[idx].eval()
-        check(r is im.trainers[idx], "mode:return", lambda: f"{ctx.what}: train()/eval() did not return the trainer", ctx.info())
+        check(r is im.trainers[idx], "mode:return", lambda: f"{ctx.what}: train()/eval() did not return the trainer", ctx)
         w.set_trainer_mode(idx, mode)
     elif name == "lmode":
         mode = (op[1] % 3) != 0
@@ -611,14 +636,14 @@ def _trainer_step(ctx: Ctx, idx, sig):
         nb = len(before[key][0]) + len(before[key][1])
         na = len(after[key][0]) + len(after[key][1])
         if key in touched:
-            check(na > nb, "tstep:noupdate", lambda: f"{ctx.what}: trainer{idx} ({tm.ttype}) produced no update for {key}", ctx.info())
+            check(na > nb, "tstep:noupdate", lambda: f"{ctx.what}: trainer{idx} ({tm.ttype}) produced no update for {key}", ctx)
         else:
             check(na == nb, "tstep:foreign", lambda: f"{ctx.what}: trainer{idx} ({tm.ttype}) changed the accumulator of {key}, "
-                                                     f"which belongs to none of its training cells", ctx.info())
+                                                     f"which belongs to none of its training cells", ctx)
         for side in (0, 1):
             for a, b in zip(before[key][side], after[key][side]):
                 check(np.array_equal(a, b, equal_nan=True), "tstep:foreign",
-                      lambda: f"{ctx.what}: trainer{idx} rewrote an already accumulated part of {key}", ctx.info())
+                      lambda: f"{ctx.what}: trainer{idx} rewrote an already accumulated part of {key}", ctx)
     ctx.stats["tstep"] += 1
     if tm.ttype == "STDP" and active:
         want = {}
@@ -636,7 +661,7 @@ def _trainer_step(ctx: Ctx, idx, sig):
                 ok = len(new) == len(ws) and all(_close(g, x) for g, x in zip(new, ws))
                 check(ok, "tstep:value",
                       lambda: f"{ctx.what}: trainer{idx} STDP {'pos' if side == 0 else 'neg'} parts for {cname}\n got  "
-                              f"{[np.round(g, 5).tolist() for g in new]}\n want {[np.round(x, 5).tolist() for x in ws]}", ctx.info())
+                              f"{[np.round(g, 5).tolist() for g in new]}\n want {[np.round(x, 5).tolist() for x in ws]}", ctx)
         ctx.stats["tstep_value"] += 1
 
 
@@ -668,13 +693,13 @@ def _update(ctx: Ctx, idx):
                 want = want - part
             check(_close(delta, want), "update:value",
                   lambda: f"{ctx.what}: {cname}.{p} changed by {np.round(delta, 5).tolist()}, accumulated update was "
-                          f"{np.round(want, 5).tolist()}", ctx.info())
+                          f"{np.round(want, 5).tolist()}", ctx)
             if idx is None:  # Layer.update(clear=True)
-                check(not pos and not neg, "update:pending", lambda: f"{ctx.what}: accumulator {cname}.{p} not emptied by layer.update()", ctx.info())
+                check(not pos and not neg, "update:pending", lambda: f"{ctx.what}: accumulator {cname}.{p} not emptied by layer.update()", ctx)
         else:
             same = len(pos) == len(bpos) and len(neg) == len(bneg)
             check(same and not np.any(delta), "update:foreign",
-                  lambda: f"{ctx.what}: update touched {cname}.{p}, which has no cell in trainer{idx}", ctx.info())
+                  lambda: f"{ctx.what}: update touched {cname}.{p}, which has no cell in trainer{idx}", ctx)
     ctx.stats["updates"] += 1
 
 
@@ -682,6 +707,7 @@ def _update(ctx: Ctx, idx):
 
 
 def run_lifecycle(case):
+    _freeze_heap()
     ctx = Ctx(case)
     with impl("construct layer"):
         ctx.impl = Impl(case)
@@ -694,8 +720,12 @@ def run_lifecycle(case):
     max_two = 0
     for i, op in enumerate(case["ops"]):
         ctx.what = f"op#{i} {op[0]} {op[1:]}"
-        _apply(ctx, op)
-        _compare(ctx)
+        try:
+            _apply(ctx, op)
+            _compare(ctx)
+        except Violation as v:
+            v.info = {**ctx.info(), **(v.info or {})}  # model labels for narrow matching of known findings
+            raise
         # measured classes
         for tm in w.trainers.values():
             if any(len(tm.holders(m)) > 1 for m in tm.objects()):
@@ -768,7 +798,7 @@ def lifecycle_case(draw, tier="quick"):
     t0 = draw(st.integers(0, 1))
     ops = []
     # bias (DESIGN C15/NT): register two cells that share a population early, in the same trainer ...
-    if chance(8):
+    if chance(9):
         hp = draw(st.sampled_from([0, 0, 0, 1]))
         first = draw(st.sampled_from([0, 0, 0, 1, 2, 3])) % ncell
         ops.append(["reg", t0, first, hp])
@@ -784,9 +814,14 @@ def lifecycle_case(draw, tier="quick"):
         c, nm, at, k, g = draw(_raw), draw(_raw), draw(_raw), draw(_raw), draw(_raw)
         blocks.append([["addm", t0, c, nm, at, k, 1, g, draw(_raw)], ["addm", t0, c + 1, nm, at, k, 1, g, 1],
                        ["step", bits()]])
-    if chance(8):  # ... delete one of them, then step (in training mode unless the body switched it off)
+    early = None
+    if chance(9):  # ... delete one of them, then step (in training mode unless the body switched it off)
         d = ["delc", t0, draw(_raw)] if chance(6) else ["delm", t0, draw(_raw)]
-        blocks.append([d, ["step", bits()], ["tstep", t0, draw(_raw)]])
+        blk = [d, ["step", bits()], ["tstep", t0, draw(_raw)]]
+        if chance(4):
+            early = blk  # right after the registrations, before the body can switch modes
+        else:
+            blocks.append(blk)
     if chance(8):  # a train/eval round trip of trainer or layer with steps inside and after
         if chance(6):
             t = draw(st.integers(0, 1))
@@ -801,13 +836,14 @@ def lifecycle_case(draw, tier="quick"):
             out[-1].append(["step", bits()])  # always follow a structural rule by a layer step
     for b in blocks:
         out.insert(draw(st.integers(0, len(out))), b)
+    if early is not None:
+        out.insert(0, early)
     for grp in out:
         ops.extend(grp)
     return {
         "topo": topo, "B": B, "delayed": delayed, "trainers": trainers, "ops": ops,
         # regions behind known findings are excluded by construction unless drawn in
         "allow_shadow": draw(st.integers(0, 9)) == 0,
-        "allow_mixed_trace": draw(st.integers(0, 9)) == 0,
         "allow_drop_last": draw(st.integers(0, 4)) == 0,
     }
 
